@@ -89,7 +89,7 @@ theorem handle_ids (c : Cfg) (s : State) (k : Key) (m : Msg) : UpdIds s k (handl
         obtain ⟨hf, _⟩ := ownAlloc_some ha
         have hc : ids (permLoop c s.now k peers a).1 = ids a := by unfold ids; rw [permLoop_conns]
         split
-        · exact Or.inr (Or.inl ⟨a, hf, hc⟩)
+        · trivial
         · split
           · trivial
           · exact Or.inr (Or.inl ⟨a, hf, hc⟩)
